@@ -182,4 +182,20 @@ CHECKS = {
         "level_text": 'Decides the structural clauses of the join mechanism (errors reported, NULL keys excluded, every pair executed and merged once in file order, outer row shape, side mapping). The resulting set of pairs as values is not computed.',
         "level_note": 'Trusted: std HashMap/Vec semantics; MIR of the nightly front end.',
     },
+    "C04": {
+        "modules": ["rules_c04"],
+        "explanation": "Rules on the MIR of aggregate_execution.rs: path counting shows that every per-column loop over the group table pushes exactly one value per group on every path (rectangular result table); the group table's field types are BTreeMap<GroupKey,..> and NULL is the first variant of Value's derived Ord; every group access in update_aggregate is addressed by (group_key.clone(), aggregate_index) unmodified (provenance); the HAVING aggregate index aggregates.len()+k is computed identically by its writer and its reader; MIN/MAX compare through Value's order for every type (no numeric-only fold); GroupAggregator::is_null only tests the running values for NULL; COUNT adds the constant 1.",
+        "trusted": ["rustc nightly MIR + trait resolution", "dependencies behave as documented"],
+        "technique": 'static path counting, type/impl facts, argument provenance, sibling agreement and arm-table rules on MIR',
+        "level_text": 'Decides the structural clauses (rectangularity, ordering container, group isolation, index agreement, type coverage of MIN/MAX). Numerical values of aggregate cells are not computed. One engine limit pinned by the existing tests (groups without any aggregate entry are not shown) is a recorded known finding.',
+        "level_note": 'Trusted: std BTreeMap ordering; derived Ord of Value (C16); MIR of the nightly front end.',
+    },
+    "C15": {
+        "modules": ["rules_c15"],
+        "explanation": "Only the structural necessary conditions of order-insensitivity are decided, on the MIR of aggregate_execution.rs: the MIN/MAX fold compares through Value's order for every value type (a fold that silently ignores a type keeps the first value seen, i.e. depends on arrival order); the running sum is sum + value for INT (checked), REAL and INTERVAL (checked); a lazily created aggregator depends on the first value only through default_value() (its type); PERCENTILE sorts before indexing and COUNT(DISTINCT) inserts into a HashSet<Value>.",
+        "trusted": ["rustc nightly MIR + trait resolution", "dependencies behave as documented"],
+        "technique": 'static arm-table / callee-shape and argument-provenance rules on MIR (necessary conditions only)',
+        "level_text": 'Decides necessary structural conditions: no fold keeps or seeds from the first value, and order-erasing containers are used. The algebraic law over runtime values (every permutation / partition gives the same table) is not decided by static analysis.',
+        "level_note": "Trusted: std sort / HashSet; Value's order (C16); MIR of the nightly front end.",
+    },
 }
